@@ -527,6 +527,10 @@ def run_conc(ctx):
             if ctx.tier == "quick":
                 continue
             sbound = 1
+        if si == 5:
+            # the module has to vanish after the scan was started and return after the scan passed its name: that takes
+            # two switches away from a runnable thread
+            sbound = max(sbound, 2)
         res = run_conc_scenario(W, si, sbound, ctx)
         ctx.count("schedules", res["executions"])
         ctx.count("evaluations", res["executions"])
